@@ -27,7 +27,7 @@ def run(c, p):
     elif kind == "opr":
         r = {"add": lambda x, y: x + y, "subtract": lambda x, y: x - y, "rsub": lambda x, y: y - x}[op](a, pyint(c["s"]))
     elif kind == "reduce":
-        r = {"sum": lambda: a.sum(), "npsum": lambda: np.sum(a), "any": lambda: np.any(a), "all": lambda: np.all(a), "max": lambda: a.max(),
+        r = {"mean": lambda: a.mean(), "npmean": lambda: np.mean(a), "sum": lambda: a.sum(), "npsum": lambda: np.sum(a), "any": lambda: np.any(a), "all": lambda: np.all(a), "max": lambda: a.max(),
              "mall": lambda: a.all(), "many": lambda: a.any()}[op]()
         return ("val", r), a.to_array(), None
     elif kind == "concat":
@@ -43,6 +43,8 @@ def sym(E, p, kf):
     n = E.concretize(E.int("n", 1, p["n"]))
     dta, dtb = p.get("dta", "int64"), p.get("dtb", "int64")
     a = c14.gen_vals(E, n, dta, "a")
+    if kind == "reduce" and op in ("mean", "npmean"):
+        a = [E.int(f"a{i}", -1000, 1000) for i in range(n)]       # Int-represented: the mean is an abstract quotient of exact integers
     c = dict(a=a, b=None)
     if kind == "rr":
         c["b"] = c14.gen_vals(E, n, dtb, "b")
@@ -53,7 +55,7 @@ def sym(E, p, kf):
             c["c3"] = c14.gen_vals(E, E.concretize(E.int("m3", 1, 2)), "int64", "c")
     elif kind in ("rs", "sr", "opr"):
         c["s"] = E.int("s", -100, 100)
-    if kind == "reduce" and op in ("sum", "npsum"):
+    if kind == "reduce" and op in ("sum", "npsum", "mean", "npmean"):
         for i in range(n - 1):
             E.branch(a[i] == a[i + 1])          # fork the run layout: run lengths become concrete
     got = outcome(lambda: run(c, p))
@@ -68,7 +70,10 @@ def sym(E, p, kf):
     da = typed(a, dta)
     if kind == "reduce":
         v = res["items"][1]
-        if op in ("sum", "npsum"):
+        if op in ("mean", "npmean"):
+            fdiv = z3.Function("uf_idiv_f64", z3.IntSort(), z3.IntSort(), z3.BitVecSort(64))
+            conds.append(specs.eqv(v["val"], fdiv(z3.Sum(a), z3.IntVal(n))))
+        elif op in ("sum", "npsum"):
             e = a[0]
             for x in a[1:]:
                 e = e + x
@@ -118,6 +123,9 @@ def conc(case):
     b_obs = A(c["b"], [len(c["b"])], dtb) if c.get("b") is not None else {"k": "none"}
     import warnings
     if kind == "reduce":
+        if op in ("mean", "npmean"):
+            m = common.cells(np.array([np.mean(da)]))[0]
+            return got, dict(k="tuple", items=[dict(k="tuple", items=[dict(k="any"), dict(k="scalar", val=m, dtype="float64")]), a_obs, {"k": "none"}]), {"float_eq": True}
         v = {"sum": lambda: int(da.sum()), "npsum": lambda: int(da.sum()), "any": lambda: bool(da.any()), "many": lambda: bool(da.any()),
              "all": lambda: bool(da.all()), "mall": lambda: bool(da.all()), "max": lambda: int(da.max())}[op]()
         return got, dict(k="tuple", items=[dict(k="tuple", items=[dict(k="any"), dict(k="scalar", val=v, dtype="*")]), a_obs, {"k": "none"}]), {"dtype_matters": False}
@@ -165,7 +173,7 @@ def jobs(tier, seed):
         out.append(dict(kind="sr", op=op, n=n))
     for op in ("add", "subtract", "rsub"):
         out.append(dict(kind="opr", op=op, n=n))
-    for op in ("sum", "npsum", "any", "all", "max", "mall", "many"):
+    for op in ("sum", "npsum", "any", "all", "max", "mall", "many", "mean", "npmean"):
         out.append(dict(kind="reduce", op=op, n=n + 1))
     out.append(dict(kind="concat", op="concatenate", n=2 if q else 3))
     out.append(dict(kind="concat", op="concatenate", n=2, three=True))
